@@ -38,6 +38,7 @@ CONFIGS = [
     {"maxPos": 12, "nodeSpacing": 0.5, "density": 0.3, "stubWidth": 1},  # split without collisions: stubs closer than the line spacing
     {"minPos": F(5, 2), "maxPos": F(21, 2)},  # bounds given as another real-number type
     {"minPos": 3, "maxPos": 3},  # a zero-width band: nothing fits, everything spills
+    {"maxPos": 10, "density": 0.5, "stubWidth": 0, "lineSpacing": 0},  # stubs that need no room at all (required gap 0 between two stubs)
     # ---- thorough only
     {"maxPos": 14},
     {"maxPos": 6},
@@ -156,11 +157,21 @@ def target(n):
 
 
 def spacing(a, b, ns):
-    return 2 if (a.isStub() and b.isStub()) else ns
+    return getattr(ns, "line", 2) if (a.isStub() and b.isStub()) else ns
+
+
+def _with_line(ns, line):
+    """ns, as a value of its own numeric type that also carries the spacing between two stubs (lineSpacing option)."""
+    cls = type("Spacing", (type(ns),), {})
+    out = cls(ns)
+    out.line = line
+    return out
 
 
 def effective(opts):
     ns = opts.get("nodeSpacing", 3)
+    if opts.get("lineSpacing", 2) != 2:
+        ns = _with_line(ns, opts["lineSpacing"])
     lo = opts.get("minPos", 0)
     hi = opts.get("maxPos", None)
     return ns, lo, hi
@@ -416,13 +427,13 @@ def multisets(alpha, nmax):
 def plan_layout(tier, seed, nshards=64):
     parts = []
     if tier == "quick":
-        parts.append({"alpha": "v0", "nmax": 4, "nconf": 15})
+        parts.append({"alpha": "v0", "nmax": 4, "nconf": 16})
     else:
-        parts.append({"alpha": "v0", "nmax": 5, "nconf": 29})
+        parts.append({"alpha": "v0", "nmax": 5, "nconf": 30})
         parts.append({"alpha": "v0n6", "nmax": 6, "nmin": 6, "nconf": 8})  # six labels on the two-width alphabet, 8 + 3 configs
-        parts.append({"alpha": "v1", "nmax": 4, "nconf": 15})
-    parts.append({"alpha": "seed", "nmax": 3, "nconf": 15, "seed": seed})
-    parts.append({"alpha": "w4", "nmax": 5 if tier == "quick" else 7, "nconf": 15})  # one width: more labels per input
+        parts.append({"alpha": "v1", "nmax": 4, "nconf": 16})
+    parts.append({"alpha": "seed", "nmax": 3, "nconf": 16, "seed": seed})
+    parts.append({"alpha": "w4", "nmax": 5 if tier == "quick" else 7, "nconf": 16})  # one width: more labels per input
     parts.append({"alpha": "frac", "nmax": 3 if tier == "quick" else 4, "nconf": len(FRAC_CONFIGS)})  # fractional widths
     parts.append({"alpha": "near", "nmax": 3 if tier == "quick" else 4, "nconf": len(NEAR_CONFIGS)})
     for base in BIG_BASES:
